@@ -225,15 +225,19 @@ def ref(e, mode='str'):
     if k == 'Pseq':
         items, r, off = e[1], e[2], e[3]
         n = len(items)
-        if n == 0:
-            raise ValueError('empty')
+        if n == 0:               # a list emptied after construction: nothing to embed
+            if r == INF:
+                raise Unsupported('spins for ever')
+            return iter(())
         rot = [items[(i + off) % n] for i in range(n)]       # wrapAt(i + offset)
         return it.chain.from_iterable(R(x, 'emb') for _ in counter(r) for x in rot)
     if k == 'Pser':
         items, r, off = e[1], e[2], e[3]
         n = len(items)
-        if n == 0:
-            raise ValueError('empty')
+        if n == 0:               # emptied list: (i + offset) % 0 as soon as it iterates
+            if r != INF and r <= 0:
+                return iter(())
+            raise ZeroDivisionError
         return it.chain.from_iterable(R(items[(i + off) % n], 'emb') for i in counter(r))
     if k == 'Pn':
         return it.chain.from_iterable(R(e[1], 'emb') for _ in counter(e[2]))
@@ -241,7 +245,9 @@ def ref(e, mode='str'):
         items, r, off = e[1], e[2], e[3]
         n = len(items)
         if n == 0:
-            raise ValueError('empty')
+            if r == INF:
+                raise Unsupported('spins for ever')
+            return iter(())
 
         def lace():
             for j in counter(r):
@@ -409,6 +415,8 @@ def ref(e, mode='str'):
                 need_num(st)
                 pos = pos + st
         return slide()
+    if k in ('Pseed', 'Prand', 'Pxrand', 'Pwhite'):
+        raise Unsupported('random patterns have no draw-free reference')
     raise ValueError('unknown kind %r' % (k,))
 
 
